@@ -49,9 +49,11 @@ AS = RT + "async_support/"
 #                       be replayed natively (cargo kani playback)
 # --------------------------------------------------------------------------
 
-def H(name, scenario, est=120, leak=False, stubs=True, covers=None, needs=None):
+def H(name, scenario, est=120, leak=False, stubs=True, covers=None, needs=None, forbid=None):
+    """forbid: for #[kani::should_panic] harnesses -- a failed check whose description contains this marker is a
+    violation even though Kani prints SUCCESSFUL (should_panic is satisfied by a single panicking input)."""
     return {"name": name, "module": name.split("_", 1)[0], "scenario": scenario, "est": est,
-            "leak": leak, "stubs": stubs, "covers": covers, "needs": needs}
+            "leak": leak, "stubs": stubs, "covers": covers, "needs": needs, "forbid": forbid}
 
 
 _C21_SCRIPTS = {
@@ -99,7 +101,126 @@ def _c24(tier):
     ]
 
 
+_C18_ONE = {
+    "d": "operation dropped unstarted (start_cancelled)", "c": "cancel() on an unstarted operation",
+    "pd": "poll; drop (start answers PENDING/PROGRESS/DONE; drop cancels with either answer)", "pc": "poll; explicit cancel()",
+    "ped": "poll; event; drop with the event queued", "pec": "poll; event; cancel() with the event queued",
+    "pepd": "poll; event; poll; drop", "pepc": "poll; event; poll; cancel()",
+    "pepepd": "poll; event; poll; event; poll (two events polled to completion)",
+    "ppd": "poll; spurious re-poll (re-registration, v2: re-clone); drop", "ppepd": "poll; spurious re-poll; event; poll; drop",
+}
+_C18_TWO = {
+    "v2v2_pa_pb_d": "registered under task A, re-polled under task B (no event), dropped under B",
+    "v2v2_pa_e_pb_d": "registered under A, event delivered by A, re-polled under B, dropped",
+    "v2v2_pa_pb_e_pb": "registered under A, moved to B, event delivered by B, polled under B",
+    "v2v2_pa_pb_da": "registered under A, moved to B, dropped while A is current again",
+    "v2v2_pa_db": "registered under A, dropped while B is current",
+    "v2v2_pa_pb_pa_d": "A, B, A again, dropped",
+    "v1v1_pa_pb_d": "both tasks on the v1 C ABI: registered under A, re-polled under B",
+    "v1v2_pa_pb_d": "task A on the v1 C ABI, task B on v2: registered under A, re-polled under B",
+    "v2v1_pa_pb_d": "task A on v2, task B on the v1 C ABI: registered under A, re-polled under B",
+    "v1v1_pa_e_pb_d": "v1/v1: registered under A, event delivered by A, re-polled under B, dropped",
+    "v1v1_pa_db": "v1/v1: registered under A, dropped while B is current",
+}
+_C18_DEEP = {
+    "one_pppd": "poll; two spurious re-polls; drop", "one_peppd": "poll; event; poll; spurious re-poll; drop",
+    "one_pepec": "poll; event; poll; event; cancel() with the second event queued", "one_ppepepd": "spurious re-poll, then two events polled to completion",
+    "two_v2v2_abab": "v2/v2: polled under A, B, A, B, then dropped", "two_v2v2_a_e_b_e_a": "v2/v2: event from A consumed under B, event from B consumed under A",
+    "two_v2v2_pa_pb_e_pa": "v2/v2: registered under A, moved to B, event from B consumed under A",
+}
+
+
+def _c18(tier):
+    pre = "generic waitable operation (minimal WaitableOp), one task, C ABI v1/v2 and clone behaviour symbolic: "
+    hs = [H("c18_one_" + k, pre + d, 45) for k, d in _C18_ONE.items()]
+    hs += [H("c18_two_" + k, "generic waitable operation, two tasks: " + d, 50) for k, d in _C18_TWO.items()]
+    if tier == "thorough":
+        hs += [H("c18_deep_" + k, "generic waitable operation: " + d, 60) for k, d in _C18_DEEP.items()]
+    return hs
+
+
+def _c20(tier):
+    w = "future write, raw API (RawFutureWriter::write / RawFutureWrite), host answers COMPLETED/DROPPED/BLOCKED, events COMPLETED/DROPPED, cancel answers COMPLETED/DROPPED/CANCELLED: "
+    r = "future read (RawFutureReader::into_future / RawFutureRead), host answers COMPLETED/BLOCKED, cancel answers COMPLETED/CANCELLED: "
+    t = "typed API (FutureWriter / FutureWrite, default value; write_and_forget replaced by a harness-driven deferred write): "
+    hs = [
+        H("c20_rawwrite_c", w + "cancel() before the first poll", 40),
+        H("c20_rawwrite_pc", w + "poll; cancel()", 80, leak=True),
+        H("c20_rawwrite_pec", w + "poll; event; cancel() with the event queued", 100, leak=True),
+        H("c20_rawwrite_pep", w + "poll; event; poll", 200, leak=True),
+        H("c20_rawwrite_zst_pc", w + "zero-sized payload (no buffer): poll; cancel()", 50),
+        H("c20_typed_writer_dropped_unwritten", t + "FutureWriter dropped without writing -> default value written; writable end released only afterwards", 80),
+        H("c20_typed_write_dropped_unpolled", t + "FutureWrite dropped before its first poll -> value dropped, default written", 80),
+        H("c20_typed_write_dropped_midflight", t + "FutureWrite polled once and dropped mid-flight -> cancel; if cancelled the default value is written", 420),
+        H("c20_typed_cancel", t + "FutureWrite::cancel(): AlreadySent / Dropped(value) / Cancelled(value, writer) match what the host answered", 300),
+        H("c20_read_d", r + "reader future dropped unpolled", 40),
+        H("c20_read_c", r + "cancel() before the first poll: reader handed back", 40),
+        H("c20_read_pd", r + "poll; drop mid-flight", 60, leak=True),
+        H("c20_read_ped", r + "poll; event; drop with the completion queued", 90, leak=True),
+        H("c20_read_pepd", r + "poll; event; poll", 120, leak=True),
+        H("c20_read_pc", r + "poll; cancel()", 90, leak=True),
+        H("c20_read_pec", r + "poll; event; cancel() with the completion queued", 100, leak=True),
+        H("c20_read_zst_pd", r + "zero-sized payload: poll; drop", 50),
+    ]
+    if tier == "thorough":
+        hs += [H("c20_deep_rawwrite_ppc", w + "poll; spurious re-poll; cancel()", 150, leak=True),
+               H("c20_deep_read_ppd", r + "poll; spurious re-poll; drop", 100, leak=True)]
+    return hs
+
+
+def _c19(tier):
+    wu = "stream write of 3 items, canonical payload (u8: buffer is the vector itself), host answers COMPLETED(k)/DROPPED(k)/BLOCKED, events, cancel answers incl. CANCELLED(k): "
+    wv = "stream write of 3 items, lifted payload with lists (lower at start; per-item ownership ledger): "
+    ru = "stream read into capacity 3, canonical payload (u8), host stores k items: "
+    rv = "stream read into capacity 3, lifted payload (scratch buffer + lift per item; ownership ledger): "
+    ab = "AbiBuffer one-step from every valid state (new; advance(a); advance(b); abi_ptr_and_len; remaining; into_vec or drop), "
+    hs = [
+        H("c19_return_code_valid", "ReturnCode::decode on all valid encodings of the 2^32 inputs: BLOCKED, (amount << 4) | {COMPLETED, DROPPED, CANCELLED}", 30, stubs=False),
+        H("c19_return_code_invalid_traps", "ReturnCode::decode on every other input: must panic, never return", 30, stubs=False, forbid="INVALID-CODE-ACCEPTED"),
+        H("c19_abibuf_u8_len0", ab + "u8, empty vector", 30, stubs=False, leak=True),
+        H("c19_abibuf_u8_len1", ab + "u8, 1 item", 30, stubs=False, leak=True),
+        H("c19_abibuf_u8_len3", ab + "u8, 3 items", 40, stubs=False, leak=True),
+        H("c19_abibuf_val_len0", ab + "lifted payload, empty vector", 30, stubs=False, leak=True),
+        H("c19_abibuf_val_len1", ab + "lifted payload, 1 item", 40, stubs=False, leak=True),
+        H("c19_abibuf_val_len3", ab + "lifted payload, 3 items", 60, stubs=False, leak=True),
+        H("c19_write_u8_pc", wu + "poll; cancel()", 150, leak=True),
+        H("c19_write_u8_pec", wu + "poll; event; cancel() racing the queued completion", 200, leak=True),
+        H("c19_write_u8_pep", wu + "poll; event; poll", 200, leak=True),
+        H("c19_write_u8_pd", wu + "poll; write future dropped mid-flight", 150, leak=True),
+        H("c19_write_u8_ped", wu + "poll; event; dropped with the completion queued", 200, leak=True),
+        H("c19_write_u8_len0_pc", "zero-length stream write (u8): poll; cancel()", 100, leak=True),
+        H("c19_write_val_pc", wv + "poll; cancel()", 250, leak=True),
+        H("c19_write_val_pep", wv + "poll; event; poll", 300, leak=True),
+        H("c19_write_val_pd", wv + "poll; dropped mid-flight", 250, leak=True),
+        H("c19_write_all_u8", "write_all of 3 u8 items over <= 3 rendezvous (each may block and be completed by an event, partial counts, reader drop)", 400, leak=True),
+        H("c19_write_one_u8", "write_one(u8): sent, or handed back when the reader is gone", 250, leak=True),
+        H("c19_read_u8_pc", ru + "poll; cancel()", 150, leak=True),
+        H("c19_read_u8_pec", ru + "poll; event; cancel() racing the queued completion", 200, leak=True),
+        H("c19_read_u8_pep", ru + "poll; event; poll", 200, leak=True),
+        H("c19_read_u8_pd", ru + "poll; read future dropped mid-flight", 150, leak=True),
+        H("c19_read_u8_ped", ru + "poll; event; dropped with the completion queued", 200, leak=True),
+        H("c19_read_val_pc", rv + "poll; cancel()", 250, leak=True),
+        H("c19_read_val_pep", rv + "poll; event; poll", 300, leak=True),
+        H("c19_read_val_pd", rv + "poll; dropped mid-flight", 250, leak=True),
+        H("c19_next_u8", "RawStreamReader::next (capacity 1): item, or None at end of stream", 250, leak=True),
+    ]
+    if tier == "thorough":
+        hs += [
+            H("c19_deep_abibuf_u8_len2", ab + "u8, 2 items", 40, stubs=False, leak=True),
+            H("c19_deep_abibuf_val_len2", ab + "lifted payload, 2 items", 50, stubs=False, leak=True),
+            H("c19_deep_write_val_pec", wv + "poll; event; cancel() racing the queued completion", 300, leak=True),
+            H("c19_deep_write_val_ped", wv + "poll; event; dropped with the completion queued", 300, leak=True),
+            H("c19_deep_write_all_val", "write_all of 3 lifted items over <= 3 rendezvous", 600, leak=True),
+            H("c19_deep_read_val_pec", rv + "poll; event; cancel() racing the queued completion", 300, leak=True),
+            H("c19_deep_read_val_ped", rv + "poll; event; dropped with the completion queued", 300, leak=True),
+        ]
+    return hs
+
+
 HARNESSES = {
+    "C18": _c18,
+    "C19": _c19,
+    "C20": _c20,
     "C21": _c21,
     "C24": _c24,
 }
@@ -116,6 +237,37 @@ ENCODED = {
             (AS + "waitable.rs", "fn poll_complete_with_code("), (AS + "waitable.rs", "pub fn cancel(mut self: Pin<&mut Self>)"),
             (AS + "waitable.rs", "impl<S: WaitableOp> Drop for WaitableOperation<S>"),
             (RT + "mod.rs", "pub fn new(layout: Layout) -> (*mut u8, Option<Cleanup>)"), (RT + "mod.rs", "impl Drop for Cleanup")],
+    "C18": [(AS + "waitable.rs", "unsafe fn new(task: *mut cabi::wasip3_task_v2)"), (AS + "waitable.rs", "fn unregister(&mut self, waitable: u32)"),
+            (AS + "waitable.rs", "impl Drop for CabiTask"), (AS + "waitable.rs", "pub fn new(op: S, state: S::Start)"),
+            (AS + "waitable.rs", "pub fn register_waker("), (AS + "waitable.rs", "unsafe extern \"C\" fn cabi_wake("),
+            (AS + "waitable.rs", "pub fn unregister_waker("), (AS + "waitable.rs", "pub fn poll_complete("),
+            (AS + "waitable.rs", "fn poll_complete_with_code("), (AS + "waitable.rs", "pub fn cancel(mut self: Pin<&mut Self>)"),
+            (AS + "waitable.rs", "pub fn is_done("), (AS + "waitable.rs", "impl<S: WaitableOp> Drop for WaitableOperation<S>"),
+            (AS + "cabi.rs", "pub struct wasip3_task {"), (AS + "cabi.rs", "pub struct wasip3_task_vtable {")],
+    "C19": [(AS + "stream_support.rs", "pub fn write(&mut self, values: Vec<O::Payload>)"), (AS + "stream_support.rs", "pub fn write_buf("),
+            (AS + "stream_support.rs", "pub async fn write_all("), (AS + "stream_support.rs", "pub async fn write_one("),
+            (AS + "stream_support.rs", "impl<O> Drop for RawStreamWriter<O>"), (AS + "stream_support.rs", "unsafe impl<'a, O> WaitableOp for StreamWriteOp<'a, O>"),
+            (AS + "stream_support.rs", "pub fn read(&mut self, buf: Vec<O::Payload>)"), (AS + "stream_support.rs", "pub async fn next("),
+            (AS + "stream_support.rs", "impl<O: StreamOps> Drop for RawStreamReader<O>"),
+            (AS + "stream_support.rs", "unsafe impl<'a, O: StreamOps> WaitableOp for StreamReadOp<'a, O>"),
+            (AS + "abi_buffer.rs", "pub(crate) fn new(mut vec: Vec<O::Payload>, mut ops: O)"), (AS + "abi_buffer.rs", "pub(crate) fn abi_ptr_and_len("),
+            (AS + "abi_buffer.rs", "pub fn into_vec(mut self)"), (AS + "abi_buffer.rs", "pub fn remaining(&self)"),
+            (AS + "abi_buffer.rs", "pub(crate) fn advance(&mut self, amt: usize)"), (AS + "abi_buffer.rs", "fn take_vec(&mut self)"),
+            (RT + "async_support.rs", "fn decode(val: u32) -> ReturnCode"),
+            (AS + "waitable.rs", "pub fn register_waker("), (AS + "waitable.rs", "pub fn unregister_waker("), (AS + "waitable.rs", "fn poll_complete_with_code("),
+            (AS + "waitable.rs", "pub fn cancel(mut self: Pin<&mut Self>)"), (RT + "mod.rs", "pub fn new(layout: Layout) -> (*mut u8, Option<Cleanup>)"),
+            (RT + "mod.rs", "impl Drop for Cleanup")],
+    "C20": [(AS + "future_support.rs", "pub unsafe fn future_new<T>("), (AS + "future_support.rs", "pub unsafe fn raw_future_new<O>("),
+            (AS + "future_support.rs", "pub fn write(mut self, value: T) -> FutureWrite<T>"), (AS + "future_support.rs", "impl<T> Drop for FutureWriter<T>"),
+            (AS + "future_support.rs", "pub fn cancel(self: Pin<&mut Self>) -> FutureWriteCancel<T>"), (AS + "future_support.rs", "impl<T: 'static> Drop for FutureWrite<T>"),
+            (AS + "future_support.rs", "pub fn write(self, value: O::Payload) -> RawFutureWrite<O>"), (AS + "future_support.rs", "impl<O: FutureOps> Drop for RawFutureWriter<O>"),
+            (AS + "future_support.rs", "unsafe impl<O: FutureOps> WaitableOp for FutureWriteOp<O>"), (AS + "future_support.rs", "impl<O: FutureOps> Future for RawFutureWrite<O>"),
+            (AS + "future_support.rs", "impl<O: FutureOps> IntoFuture for RawFutureReader<O>"), (AS + "future_support.rs", "impl<O: FutureOps> Drop for RawFutureReader<O>"),
+            (AS + "future_support.rs", "unsafe impl<O: FutureOps> WaitableOp for FutureReadOp<O>"), (AS + "future_support.rs", "impl<O: FutureOps> Future for RawFutureRead<O>"),
+            (AS + "future_support.rs", "impl<T> FutureOps for &FutureVtable<T>"),
+            (AS + "waitable.rs", "pub fn register_waker("), (AS + "waitable.rs", "pub fn unregister_waker("), (AS + "waitable.rs", "fn poll_complete_with_code("),
+            (AS + "waitable.rs", "pub fn cancel(mut self: Pin<&mut Self>)"), (RT + "mod.rs", "pub fn new(layout: Layout) -> (*mut u8, Option<Cleanup>)"),
+            (RT + "mod.rs", "impl Drop for Cleanup")],
     "C24": [(RT + "mod.rs", "pub unsafe fn cabi_realloc("), (RT + "mod.rs", "pub fn new(layout: Layout) -> (*mut u8, Option<Cleanup>)"),
             (RT + "mod.rs", "pub fn forget(self)"), (RT + "mod.rs", "impl Drop for Cleanup"),
             ("crates/rust/src/lib.rs", "RuntimeItem::CabiDealloc =>")],
@@ -133,6 +285,23 @@ BOUNDS = {
     },
 }
 
+BOUNDS["C18"] = {
+    "quick": {"operations": 1, "tasks": "1 or 2", "host_events": "<= 2", "polls": "<= 3", "schedules": "22 fixed scripts over {poll, event, cancel(), switch task, drop}",
+              "task_abi": "one task: v1/v2 symbolic, clone returns same or fresh pointer (symbolic); two tasks: v2/v2, v1/v1, v1/v2, v2/v1", "unwind": 2},
+    "thorough": {"operations": 1, "tasks": "1 or 2", "host_events": "<= 2", "polls": "<= 4", "schedules": "29 fixed scripts", "unwind": 2},
+}
+BOUNDS["C19"] = {
+    "quick": {"streams": 1, "ends_per_harness": 1, "vector_len": "0, 1, 3 (AbiBuffer) / 3 (write) / capacity 3 (read) / 1 (write_one, next)",
+              "host_events": "<= 1 per operation; write_all: <= 3 rendezvous", "transfer_counts": "symbolic k <= remaining", "item_width": "1 byte",
+              "payload": ["canonical u8", "lifted with lists (ownership ledger)"], "task_abi": "v1/v2 symbolic", "unwind": 5,
+              "return_code": "all 2^32 inputs"},
+}
+BOUNDS["C19"]["thorough"] = dict(BOUNDS["C19"]["quick"], vector_len="0..3")
+BOUNDS["C20"] = {
+    "quick": {"futures": 1, "ends_per_harness": 1, "host_events": "<= 1 per operation", "polls": "<= 2", "payload": "1-byte buffer, or zero-sized",
+              "task_abi": "raw/read scenarios: v1/v2 symbolic; typed scenarios: v2", "unwind": 3},
+}
+BOUNDS["C20"]["thorough"] = dict(BOUNDS["C20"]["quick"], polls="<= 3")
 BOUNDS["C24"] = {
     "quick": {"requests": 2, "alignment": "2^k, k in 0..=16 (symbolic)", "sizes_bytewise": "0..=16 (contents compared bytewise, unwind 18)",
               "sizes_ledger": "0..=2^20 (Layout arguments only)", "cleanup_size": "0..=16"},
@@ -156,8 +325,33 @@ ASSUMPTIONS_COMMON = [
     "the harness polls with Waker::noop(); wake-ups are not observed",
     "kani: --no-assertion-reach-checks (vacuity is guarded by explicit kani::cover! witnesses instead); default Kani checks otherwise "
     "(pointer validity, overflow, unwinding assertions ON)",
+    "alias lint after every run (rtkani/alias_lint.py): no function outside the harness crate touches a harness static (guards against a Kani 0.68 "
+    "quirk that compiles a constant as a read of a `static mut` with the same initial bytes); a finding makes the harness inconclusive",
 ]
 
+OUTSIDE["C18"] = [
+    "SharedTaskState::waitable_register / waitable_unregister / cabi_clone / cabi_drop and TaskState::deliver_waitable_event themselves: they sit on a "
+    "BTreeMap<u32, _> that CBMC cannot take (one insert + one remove exhausts 16 GB); the 'runtime waitable map' half of the property is claimed only "
+    "through the wasip3_task C ABI contract these functions implement (the mock exporting task), not through their code",
+    "symbolic (solver-chosen) schedules: a loop of 5 symbolic steps over this operation runs CBMC out of 12 GB; the schedules are the enumerated fixed scripts",
+    "more than one operation per task; more than two tasks; wake-ups across tasks (C23)",
+    "the concrete stream/future/subtask operations are exercised against the same mock task in C19/C20/C21",
+]
+OUTSIDE["C19"] = [
+    "RawStreamReader::collect (Vec growth over several reads) and the futures-stream adapter (pulls in the `futures` crate)",
+    "vectors longer than 3 items; items wider than one byte; more than one stream; both ends inside one component instance",
+    "the inter-task / unit-stream helpers",
+    "code generated for lower/lift/dealloc_lists (the StreamOps callbacks are the harness's ledger functions)",
+    "StreamVtable-based StreamOps (&'static StreamVtable<T>): the harness implements StreamOps directly; the vtable adapter is 12 one-line forwarders",
+]
+OUTSIDE["C20"] = [
+    "DeferredWrite's own Arc/Wake mechanics inside RawFutureWriter::write_and_forget: with the real code CBMC's symbolic execution does not terminate "
+    "(> 20 min; every waker drop may be the Arc's last reference, whose destructor drops the write, which cancels, which drops a waker ...); the typed "
+    "harnesses replace write_and_forget by a harness-driven deferred write with the same protocol",
+    "both ends of one future inside the same component instance; more than one future",
+    "the error-context / unit-stream helpers; futures of futures",
+    "code generated for lower/lift/dealloc_lists (the vtable entries are the harness's ledger functions)",
+]
 OUTSIDE["C24"] = [
     "alignment of the returned ADDRESS: not observable in CBMC's object/offset pointer model; the check shows instead that the Layout handed to the "
     "global allocator carries the requested alignment, and relies on GlobalAlloc's contract for the address",
@@ -180,6 +374,42 @@ ASSUMPTIONS = {
     ],
 }
 
+ASSUMPTIONS["C18"] = [
+    "the operation is a minimal WaitableOp (c18.rs): start answers PENDING | PROGRESS | DONE; events carry PROGRESS | DONE and are delivered only while "
+    "the waitable is registered and unresolved; the sync cancel intrinsic answers DONE | CANCELLED",
+    "assume: waitable handle in [1, 2^28)",
+    "mock traps (assertions): cancel intrinsic / handle drop while the waitable is registered with any task, after resolution, or twice; registration "
+    "with a second task while still registered with the first; registration of a different callback pointer for the same pinned operation; event "
+    "delivery after the operation's memory is gone",
+    "counting waker (RawWakerVTable of the harness): each delivered event wakes once; clones balanced by drops",
+]
+ASSUMPTIONS["C19"] = [
+    "mock host = a direct StreamOps implementation (c19.rs): stream.write(h, ptr, n) answers COMPLETED(k), 1 <= k <= n (k = 0 only when n = 0), DROPPED(k), "
+    "0 <= k <= n (and DROPPED(0) forever after), or BLOCKED; events COMPLETED(k >= 1) | DROPPED(k); cancel answers COMPLETED(k) | DROPPED(k) | "
+    "CANCELLED(k); stream.read mirrors this",
+    "the host copies k items out of / into the buffer at the moment it reports them (dangling-pointer check); written items are 0x10, 0x11, ..., "
+    "items the host produces are 0x40, 0x41, ... (so order, duplication and loss are observable)",
+    "mock traps (assertions): cancel without an operation in progress or while registered; drop of an end while an operation is in progress or while "
+    "registered; a second concurrent read/write on one end",
+    "assume: handles in [1, 2^28), distinct",
+    "should_panic harness c19_return_code_invalid_traps: a check placed after the call fails iff decode returns for an invalid code; the runner treats "
+    "that failure as a violation",
+    "CBMC --memory-leak-check on all stream harnesses (Vec storage, Cleanup scratch buffers)",
+]
+ASSUMPTIONS["C20"] = [
+    "mock host = the FutureVtable the generator would emit (c20.rs): future.write answers COMPLETED | DROPPED | BLOCKED (DROPPED forever once the reader is "
+    "gone), events COMPLETED | DROPPED, cancel-write answers COMPLETED | DROPPED | CANCELLED; future.read answers COMPLETED | BLOCKED, event COMPLETED, "
+    "cancel-read answers COMPLETED | CANCELLED",
+    "mock traps (assertions): drop-writable before a write COMPLETED or answered DROPPED; drop/cancel while an operation is in progress resp. not in progress; "
+    "any intrinsic on an end that is still registered with a task; a second value taken from one future",
+    "assume: handles in [1, 2^28), distinct",
+    "stub: std::alloc::alloc is a shim that asserts the request is the 1-byte element layout and serves it with a constant-size request (keeps the buffer "
+    "size concrete for CBMC; for the zero-sized payload it asserts that nothing is allocated)",
+    "stub (typed harnesses): RawFutureWriter::write_and_forget -> harness-driven deferred write (start + poll; if blocked the completion event is delivered "
+    "at once and the write polled again; result dropped) -- see outside_claim",
+    "the host reads/writes the value buffer exactly when it completes the operation (dangling-pointer check)",
+    "CBMC --memory-leak-check on the raw write/read harnesses",
+]
 ASSUMPTIONS["C24"] = [
     "assume: align = 2^k with k <= 16; sizes <= 16 (model harnesses) / <= 2^20 (ledger harnesses); a non-empty block is never resized to 0",
     "stub (ledger harnesses only): std::alloc::{alloc, realloc, dealloc} are recording shims (c24.rs rec_alloc/rec_realloc/rec_dealloc) that serve "
@@ -293,7 +523,7 @@ def kani_cmd(h: dict, target_dir: str, playback: bool = False) -> list:
     return cmd
 
 
-CHECK_RE = re.compile(r"^Check (\d+): (\S+)\n\t - Status: (\w+)\n\t - Description: \"(.*)\"\n\t - Location: (.*)$", re.M)
+CHECK_RE = re.compile(r"^Check (\d+): (.+)\n\t - Status: (\w+)\n\t - Description: \"(.*)\"\n\t - Location: (.*)$", re.M)
 
 
 def parse(out: str, rc: int) -> dict:
@@ -311,6 +541,7 @@ def parse(out: str, rc: int) -> dict:
         r["covers"] = (int(m.group(1)), int(m.group(2)))
     for cm in CHECK_RE.finditer(out):
         num, pid, status, desc, loc = cm.groups()
+        desc = desc.strip('"')
         if status == "FAILURE":
             r["failed"].append({"id": pid, "description": desc, "location": loc})
         elif status in ("UNSATISFIABLE", "UNREACHABLE") and ".cover." in pid:
@@ -362,19 +593,53 @@ def role_of(prop: str, h: dict, f: dict) -> str:
 PLAYBACK_RE = re.compile(r"Concrete playback unit test for `[^`]*`:\n```\n(.*?)\n```", re.S)
 
 
+def alias_lint(slot_dir: str, h: dict):
+    """Kani 0.68 quirk guard (rtkani/alias_lint.py): a constant of the code under test whose bytes equal the
+    initializer of a harness `static mut` is compiled as a read of that static.  Returns a list of findings."""
+    import glob
+    import importlib.util
+    cands = glob.glob(os.path.join(slot_dir, "kani", "*", "debug", "build", "rtkani", "*", "out", "*%d%s.out" % (len(h["name"]), h["name"])))
+    if not cands:
+        return None
+    path = max(cands, key=os.path.getmtime)
+    spec = importlib.util.spec_from_file_location("alias_lint", os.path.join(CRATE_SRC, "alias_lint.py"))
+    mod = importlib.util.module_from_spec(spec)
+    spec.loader.exec_module(mod)
+    return ["%s touches %s" % (fn, sym) for (fn, sym) in sorted(mod.lint(path))]
+
+
 def run_harness(prop: str, h: dict, crate: str, timeout: int, env: dict) -> dict:
     with Slot() as slot:
         log = os.path.join(WORK, "logs", "%s.log" % h["name"])
         cmd = kani_cmd(h, slot.dir)
         rc, out, dt = vlib.run_cmd(cmd, cwd=crate, env=env, timeout=timeout, mem_gb=MEM_GB, log=log)
         res = parse(out, rc)
+        if h.get("forbid") and res["status"] == "ok":
+            bad = [f for f in res["failed"] if h["forbid"] in f["description"]]
+            if bad:
+                res["status"] = "failed"
+                res["failed_real"] = bad
         res.update({"harness": h["name"], "wall_s": round(dt, 1), "cmd": " ".join(cmd[3:])})
+        if res["status"] in ("ok", "failed"):
+            al = alias_lint(slot.dir, h)
+            res["alias_lint"] = al
+            if al:
+                res["status"] = "inconclusive"
+                res["reason"] = "Kani constant/static aliasing quirk would distort this run: " + "; ".join(al)[:300]
+            elif al is None:
+                res["status"] = "inconclusive"
+                res["reason"] = "alias lint could not find the goto binary of the harness"
         if res["status"] == "failed":
             # candidate violation: second, independent run with concrete playback
             log2 = os.path.join(WORK, "logs", "%s.playback.log" % h["name"])
             cmd2 = kani_cmd(h, slot.dir, playback=True)
             rc2, out2, dt2 = vlib.run_cmd(cmd2, cwd=crate, env=env, timeout=timeout, mem_gb=MEM_GB, log=log2)
             res2 = parse(out2, rc2)
+            if h.get("forbid") and res2["status"] == "ok":
+                bad = [f for f in res2["failed"] if h["forbid"] in f["description"]]
+                if bad:
+                    res2["status"] = "failed"
+                    res2["failed_real"] = bad
             pm = PLAYBACK_RE.search(out2)
             res["playback_test"] = pm.group(1) if pm else None
             res["playback_status"] = res2["status"]
